@@ -77,6 +77,9 @@ pub enum Ev {
     EnableOnly(u8),
     DisableOnly(u8),
     Adv(u64),
+    /// the READ sent last is sent again, byte for byte, while an unsolicited response awaits its
+    /// confirm (no effect in any other situation)
+    RepeatRead,
 }
 
 #[derive(Copy, Clone, Debug, PartialEq, Eq)]
@@ -855,6 +858,8 @@ pub struct Driver {
     pub uns_expected: u8,
     /// the latest request if it was a READ: (sequence number, asks for static data)
     pub last_read: Option<(u8, bool)>,
+    /// the latest READ as sent, with the classes it selects
+    pub last_read_request: Option<(Vec<u8>, Option<[bool; 3]>)>,
 }
 
 impl Driver {
@@ -926,6 +931,16 @@ impl Driver {
                 let seq = if *ok { self.uns_expected } else { (self.uns_expected + 1) & 0x0F };
                 confirm = Some((true, seq));
                 sent = Some(app::confirm(seq, true));
+            }
+            Ev::RepeatRead => {
+                let deferrable = self.ledger.uns.is_some() && self.ledger.sol.is_none();
+                if let (true, Some((f, sel))) = (deferrable, self.last_read_request.clone()) {
+                    if f[0] & 0x0F == self.last_seq {
+                        selected = sel;
+                        new_request = true;
+                        sent = Some(f);
+                    }
+                }
             }
             Ev::Timeout => self.sim.advance(TO),
             Ev::Adv(ms) => self.sim.advance(*ms),
@@ -1032,8 +1047,12 @@ impl Driver {
             self.last_read = match ev {
                 Ev::Read(..) | Ev::ReadBinaryEvents => Some((self.last_seq, false)),
                 Ev::ReadClass0 => Some((self.last_seq, true)),
+                Ev::RepeatRead => self.last_read,
                 _ => None,
             };
+            if matches!(ev, Ev::Read(..) | Ev::ReadBinaryEvents | Ev::ReadClass0) {
+                self.last_read_request = sent.clone().map(|f| (f, selected));
+            }
         }
         if reconnect {
             self.last_read = None;
@@ -1116,7 +1135,7 @@ pub fn start_with_iin(cfg: &OCfg, unsol: bool, cto: bool) -> Driver {
 pub fn start_raw(cfg: &OCfg, cto: bool) -> Driver {
     let mut sim = OSim::new(cfg, 1);
     setup_db(&mut sim, cto);
-    Driver { sim, last_step: None, last_sent: None, ledger: Ledger::default(), last_seq: 0, updates: [0; 4], sol_expected: 0, uns_expected: 0, last_read: None }
+    Driver { sim, last_step: None, last_sent: None, ledger: Ledger::default(), last_seq: 0, updates: [0; 4], sol_expected: 0, uns_expected: 0, last_read: None, last_read_request: None }
 }
 
 pub fn start(cfg: &OCfg, unsol: bool, cto: bool) -> Driver {
@@ -1130,7 +1149,7 @@ pub fn start(cfg: &OCfg, unsol: bool, cto: bool) -> Driver {
     }
     sim.take_out();
     sim.take_cb();
-    Driver { sim, last_step: None, last_sent: None, ledger: Ledger::default(), last_seq, updates: [0; 4], sol_expected: 0, uns_expected: 0, last_read: None }
+    Driver { sim, last_step: None, last_sent: None, ledger: Ledger::default(), last_seq, updates: [0; 4], sol_expected: 0, uns_expected: 0, last_read: None, last_read_request: None }
 }
 
 impl Scenario for C03 {
